@@ -213,12 +213,14 @@ PROPS = {
         trusted=REPL_TRUSTED, assumptions=["numeric fields below 2^40"],
     ),
     "C01": dict(
-        theorems=["HC.C01.entry_reopen", "HC.C01.header_reopen", "HC.C01.frame_reopen", "HC.C01.held_after", "HC.C01.refines_partial"],
+        theorems=["HC.C01.live_refinement", "HC.C01.step_refines", "HC.C01.created", "HC.C01.created_refines",
+                  "HC.C01.entry_reopen", "HC.C01.header_reopen", "HC.C01.frame_reopen", "HC.C01.held_after", "HC.C01.refines_partial"],
         bridge_modules=["HC.Bridge.Oplog", "HC.Bridge.Stores"], bridging=OPLOG_BRIDGE + STORES_BRIDGE,
         runs=_c01_runs,
-        partial="the whole-history refinement to the list model (C01.Full) is not proved yet; proved: every entry/header/frame the crate writes reads back exactly, held-set updates are exact. The refinement itself is validated by the correspondence run.",
+        partial="proved (live_refinement): every sequence of append_batch/clear/get/has/info calls on the model, from a freshly created core, yields the observations of the abstract block list + held set (flush cadence included), for every crypto record with 32-byte non-zero digests. Not proved: that Hypercore::new on the resulting disk re-establishes the representation invariant (close-and-reopen steps); those histories are validated by the correspondence run. Proved for reopen: every entry/header/frame the crate writes reads back exactly",
         rule="histories over {append, batch 0..5, clear(start<end,start<len,end maybe beyond), get/has of any u64, info, reopen, probe}: bounded-exhaustive over a 10-symbol alphabet (full probe after each step), seeded-random long ones (blocks 0 B..70 KB), large cores crossing 8192/32768/65536; every observation and every storage operation (store, offset, bytes) is compared with the Lean model and with the harness's own list model. distinct = distinct full transcripts; non-trivial = at least 3 operations",
-        trusted=LOG_TRUSTED, assumptions=["clear is called with start < end and start < length (the property's quantifier)"],
+        trusted=LOG_TRUSTED, assumptions=["clear is called with start < end and start < length (the property's quantifier)",
+                                          "live_refinement: hash functions return 32-byte digests that are never all zero (HashWF; an all-zero digest is the crate's 'blank' node) and lengths/byte totals stay below 2^64"],
     ),
     "C02": dict(
         theorems=["HC.C02.reopen_exact", "HC.C02.append_commit", "HC.C02.flush_atomic", "HC.C02.fresh", "HC.C02.reachable", "HC.C02.crash_atomic_partial"],
